@@ -8,7 +8,7 @@ from .. import coqio, dsim
 from .. import conntrace as CT
 from .. import subcases as SC
 from ..common import Check, run_cases_sharded
-from ..subharness import canon_value, class_info
+from ..subharness import canon_value, class_info, typed_decoding
 
 PROP_FILE = "Properties/C09.v"
 
@@ -379,7 +379,7 @@ def expected_updates(sc, infos):
                 for attr, f in funcs:
                     if f.name == F:
                         try:
-                            out.append((cid, F, canon_value(f.converter.to_value(V))))
+                            out.append((cid, F, canon_value(typed_decoding(f.converter, V))))
                         except Exception:  # noqa
                             pass
     return out
@@ -391,6 +391,37 @@ def run(chk: Check):
     infos, enums = class_info()
     rec_by = SC.recorded_values()
     n = 400 if chk.tier == "quick" else 8000
+    # systematic, sequential: EVERY declared function of EVERY class (readable or write-only, own query or group member)
+    # reported once to an initialised instance with two update callbacks: each callback exactly once, name and decoded value
+    from .. import apiscen as _AS
+    from ..subharness import deliver, make_connection
+
+    frng = random.Random(chk.seed * 7 + 909)
+    for cls, cid, funcs in infos:
+        conn = make_connection()
+        inst = cls(conn)
+        inst._initialized = True
+        seen = ([], [])
+        inst.register_update_callback(lambda fn, v, _s=seen[0]: _s.append((fn, canon_value(v))))
+        inst.register_update_callback(lambda fn, v, _s=seen[1]: _s.append((fn, canon_value(v))))
+        for attr, f in funcs:
+            for rep_i in range(2):
+                V = _AS.valid_value(frng, f)
+                try:
+                    exp = canon_value(typed_decoding(f.converter, V))
+                except Exception:  # noqa: not decodable: C10's matter
+                    continue
+                k0 = (len(seen[0]), len(seen[1]))
+                try:
+                    deliver(conn, ("OK", (cid, f.name, V)))
+                except Exception as e:  # noqa
+                    chk.violation(f"C09:every-function:{cls.__name__}.{f.name}", f"reporting @{cid}:{f.name}={V} raised {type(e).__name__}: {e}", {"class": cls.__name__, "function": f.name, "value": V})
+                    break
+                chk.count_case(["every-function", cid, f.name, V], True)
+                got = (seen[0][k0[0]:], seen[1][k0[1]:])
+                if got[0] != [(f.name, exp)] or got[1] != [(f.name, exp)]:
+                    chk.violation(f"C09:every-function:{cls.__name__}.{f.name}", f"@{cid}:{f.name}={V} reported to an initialised {cls.__name__} with two update callbacks: they were invoked with {got[0]!r} and {got[1]!r}, expected exactly once each with {(f.name, exp)!r}", {"class": cls.__name__, "function": f.name, "value": V})
+                    break
     sessions = []
     dist = {"sessions": 0, "messages": 0, "callback_invocations": 0, "re_entrant_mutations": 0, "other_thread_mutations": 0, "deliveries": 0}
     for _ in range(n):
